@@ -21,6 +21,45 @@ THEOREMS = [
     "Typedpy.C18.p1_names_own_field", "Typedpy.C18.p1Sites_name_fields",
     "Typedpy.C18.mapped_sites_name_fields", "Typedpy.C18.mapped_example", "Typedpy.C18.stale_shared_inner_name_example",
     "Typedpy.C18.set_build_site_examples",
+    "Typedpy.C18.c18_startsWith_append",
+    "Typedpy.C18.c18_startsWith_self",
+    "Typedpy.C18.c18_startsWith_trans",
+    "Typedpy.C18.dWrapIdx_starts",
+    "Typedpy.C18.dWrapMap_starts",
+    "Typedpy.C18.dHeadEntries_starts",
+    "Typedpy.C18.dHeadZip_starts",
+    "Typedpy.C18.dHeadListLike_starts",
+    "Typedpy.C18.dHead_starts",
+    "Typedpy.C18.isFlat_not_classRef",
+    "Typedpy.C18.p1SiteD_names_own_field",
+    "Typedpy.C18.p1SiteD_nested_iff",
+    "Typedpy.C18.p1SiteD_isSome",
+    "Typedpy.C18.p1SitesD_name_fields",
+    "Typedpy.C18.p1SitesD_all_named",
+    "Typedpy.C18.scalar_is_path",
+    "Typedpy.C18.all_scalar_is_path",
+    "Typedpy.C18.flat_is_path",
+    "Typedpy.C18.statementDeep_implies_statement",
+    "Typedpy.C18.statementDeep_false",
+    "Typedpy.C18.statement_deep_partial",
+    "Typedpy.C18.deep_path_examples",
+    "Typedpy.C18.deep_deser_head_examples",
+    "Typedpy.C18.firstBad_spec",
+    "Typedpy.C18.badOf_spec",
+    "Typedpy.C18.locSeqLike_cases",
+    "Typedpy.C18.firstBadEntry_spec",
+    "Typedpy.C18.locSet_cases",
+    "Typedpy.C18.locMap_cases",
+    "Typedpy.C18.points_here",
+    "Typedpy.C18.locate_sound",
+    "Typedpy.C18.locateZip_sound",
+    "Typedpy.C18.sites_point_at_rejections",
+    "Typedpy.C18.locate_sound_example",
+    "Typedpy.C18.all_alnum_fieldChars",
+    "Typedpy.C18.derive_pre_alnum",
+    "Typedpy.C18.derived_name_identOk",
+    "Typedpy.C18.derived_class_statement",
+    "Typedpy.C18.bracket_class_name_loses_field",
 ]
 RULE = ("flat classes (1..5 fields: Integer/Number/Float incl. sign variants, String, Boolean, Enum, and Array/Deque/"
         "Set/Tuple/Map over them) from the type-directed declaration generator; per class a valid argument set, then "
@@ -47,7 +86,17 @@ RULE = ("flat classes (1..5 fields: Integer/Number/Float incl. sign variants, St
         "count/order, and the text every message must begin with given the OBSERVED scratch `_name`s of the inner Field "
         "instances — vs the real message(s); when phase one rejects nothing, the constructor model on the lifted arguments); "
         "model exception class / class prefix / path / shape vs str(exception); model parse vs the real ErrorInfo(s). "
-        "Oracle: the property statement on the real results with the invalid set computed by Lean `validate`.")
+        "Oracle: the property statement on the real results with the invalid set computed by Lean `validate`. "
+        "Plus a DEEP stream: classes whose fields are collections nested 2..3 levels (every combination of Array/Deque/Tuple/Set/Map, homogeneous "
+        "and positional) over scalars and class references, and top-level class-reference fields; ONE position at a random depth of one or two "
+        "fields made invalid (boundary neighbour of the declaration AT that position, payload text, other type); constructor and both "
+        "deserialization entry points, fail-fast on/off; compared: the full suffix chain (Lean `locate`), deser accept/reject + exception class "
+        "(Lean `deser` on the definition-order class dump), the head every message must begin with (Lean `dHead`); oracle additionally: the path "
+        "names the rejected POSITION (wrong-position:suffix-chain). Plus a CLASS-NAME stream: classes used directly and through Partial / "
+        "AllFieldsRequired / Extend / Omit / Pick (without / with explicit name), a subclass of a derived class, a local class (__qualname__ != "
+        "__name__), and type() classes with unusual names (digits, underscores, dots, non-ASCII letters; combining mark, space, '-', '[' = the "
+        "finding's region); the derived class NAME is the model's (Lean `derivedName`), a non-word character that no user-chosen name contains is "
+        "a separate failure (field-lost:non-word-name:generated-class-name).")
 ASSUMPTIONS = [
     "Python's json module is an oracle (Codec): the only law assumed in theorems is loads(dumps(xs)) = xs on lists of strings (explicit hypothesis); the driver instantiates it with Lean.Data.Json",
     "Python's str.isalnum (what \\w matches) is an oracle (Word): assumed only to contain ASCII letters/digits and not ':'; the harness supplies its answers for the non-ASCII characters of each message",
@@ -82,9 +131,12 @@ def judge(case, impl, model):
         import json
         return "dump(build(decl)) != decl: " + json.dumps(impl["abstraction_mismatch"])[:800], []
     msg = None
-    if case["mode"] == "construct" and model.get("flat"):
-        msg = S.construct_correspondence(case, impl, model)
-    if case["mode"] == "deser" and model.get("flat"):
+    if case.get("via") and model.get("clsName") != impl.get("cls_name_real"):
+        msg = (f"class name: typedpy calls the class {impl.get('cls_name_real')!r}, the model (Lean derivedName) "
+               f"{model.get('clsName')!r} for {case['via']} of {case['cls']['name']!r}")
+    if case["mode"] == "construct" and (model.get("flat") or model.get("path")):
+        msg = msg or S.construct_correspondence(case, impl, model)
+    if case["mode"] == "deser" and (model.get("flat") or model.get("path")):
         msg = msg or S.deser_correspondence(case, impl, model)
     msg = msg or S.readable_correspondence(impl, model)
     return msg, S.oracle(case, impl, model)
